@@ -2,7 +2,7 @@
    byte and spec_float stay extracted inductives. *)
 From Coq Require Import ExtrOcamlBasic.
 From Coq Require Import List ZArith Strings.Byte Floats.SpecFloat.
-From Ugo Require Import Base.Res Base.GoInt Base.GoFloat Value.PValue Value.Ops Conv.GoValue Skel.Skel Byte.Instr Byte.V1Conv Codec.Varint Codec.Obj Comp.SymTab Comp.Fold Byte.Wf VM.CallBinding Comp.ModStore Pos.LineTable Json.Json Builtin.Adapter Builtin.SizeGuard Share.Share Share.ShareCheck Abort.Abort Abort.AbortDrive Sem.Sem.
+From Ugo Require Import Base.Res Base.GoInt Base.GoFloat Value.PValue Value.Ops Conv.GoValue Skel.Skel Byte.Instr Byte.V1Conv Codec.Varint Codec.Obj Comp.SymTab Comp.Fold Byte.Wf VM.CallBinding Comp.ModStore Pos.LineTable Json.Json Builtin.Adapter Builtin.SizeGuard Share.Share Share.ShareCheck Abort.Abort Abort.AbortDrive Sem.Sem ExprComp.ExprComp.
 Definition byte_to_N := Byte.to_N.
 Definition byte_of_N := Byte.of_N.
 Extraction "ugomodel.ml"
@@ -23,4 +23,5 @@ Extraction "ugomodel.ml"
   callable_adapter_mode run_tuples repeat_model make_array_model strings_repeat_model pad_model err_negative err_too_large
   share_check
   run_scenario
-  sem_run_program.
+  sem_run_program
+  xcompile xceval xmrun xcsize xisize.
